@@ -174,7 +174,10 @@ class CamRules:
                                       ("speed", hf["speed"]["speedValue"], r.get("speed"), 100.0)):
             if val is None:
                 continue
-            if abs(got - val * scale) > 1.0 + 1e-6:
+            err = abs(got - val * scale)
+            if name == "track":
+                err = min(err % 3600.0, 3600.0 - err % 3600.0)     # 360.0 deg may be sent as 0 or 3600 (C11 judges which)
+            if err > 1.0 + 1e-6:
                 out.append(dict(kind="cam_not_latest_report", field=name, got=got, expected=round(val * scale)))
         return out
 
